@@ -186,4 +186,190 @@ Proof.
     + intros other Ho. specialize (HO' other Ho). fold S1 in HO'. rewrite HO', (HPo1 other Ho). rewrite HT1. apply parts_bytes_grow. exact I4.
 Qed.
 
+
+(* ---- where the parts of a file go: appended after everything emitted before ---- *)
+Definition named (name : string) (p : fpart) : Prop := fp_name p = name.
+Definition other (name : string) (p : fpart) : Prop := fp_name p <> name.
+
+Lemma rev_nil_inv {A} (l : list A) : rev l = [] -> l = [].
+Proof. destruct l as [|x l]; [reflexivity|]. intros H. apply (f_equal (@length A)) in H. rewrite rev_length in H. discriminate. Qed.
+
+Lemma stream_segs_shape name : forall l bl base cur sl,
+  Forall (other name) base -> Forall (named name) cur -> (forall b t, ~ In (Mem b t) l) ->
+  exists cur', snd (fst (stream_segs tab blks name l bl (base ++ cur) sl)) = base ++ cur' /\
+               Forall (named name) cur' /\ (l <> [] \/ cur <> [] -> cur' <> []).
+Proof.
+  induction l as [|s l IH]; intros bl base cur sl Hb Hc HN; cbn [stream_segs].
+  - exists cur. split; [reflexivity|]. split; [exact Hc|]. intros [H|H]; [congruence|exact H].
+  - destruct s as [b t|b loc bsz boff]; [exfalso; apply (HN b t); left; reflexivity|].
+    assert (HNl : forall b t, ~ In (Mem b t) l) by (intros b0 t0 H0; apply (HN b0 t0); right; exact H0).
+    destruct (match rev bl with
+              | last :: _ => if String.eqb last (loc_text tab (nth loc blks [])) then (bl, sl - bsz) else (bl ++ [loc_text tab (nth loc blks [])], sl)
+              | [] => ([loc_text tab (nth loc blks [])], sl)
+              end) as [blocks1 slen1].
+    set (next := {| fp_name := name; fp_off := slen1 + boff; fp_len := length b |}).
+    assert (Hshape : exists cur1, match rev (base ++ cur) with
+                    | prev :: before => if String.eqb (fp_name prev) name && Nat.eqb (fp_off prev + fp_len prev) (fp_off next)
+                                        then rev before ++ [{| fp_name := name; fp_off := fp_off prev; fp_len := fp_len prev + fp_len next |}]
+                                        else (base ++ cur) ++ [next]
+                    | [] => [next]
+                    end = base ++ cur1 /\ Forall (named name) cur1 /\ cur1 <> []).
+    { assert (Happ : (base ++ cur) ++ [next] = base ++ (cur ++ [next]) /\ Forall (named name) (cur ++ [next]) /\ cur ++ [next] <> []).
+      { split; [rewrite app_assoc; reflexivity|]. split; [apply Forall_app; split; [exact Hc|constructor; [reflexivity|constructor]]|].
+        destruct cur; discriminate. }
+      destruct (rev (base ++ cur)) as [|prev before] eqn:Er.
+      - apply rev_nil_inv in Er. apply app_eq_nil in Er. destruct Er as [-> ->]. exists [next]. split; [reflexivity|].
+        split; [constructor; [reflexivity|constructor]|discriminate].
+      - destruct (String.eqb (fp_name prev) name && Nat.eqb (fp_off prev + fp_len prev) (fp_off next)) eqn:Em; [|exists (cur ++ [next]); exact Happ].
+        apply andb_true_iff in Em. destruct Em as [Em1 _]. apply String.eqb_eq in Em1.
+        apply rev_cons_last in Er.
+        destruct (rev cur) as [|cl rc] eqn:Erc.
+        + apply rev_nil_inv in Erc. subst cur. rewrite app_nil_r in Er. exfalso.
+          rewrite Er in Hb. apply Forall_app in Hb. destruct Hb as [_ Hb]. inversion Hb; subst. contradiction.
+        + apply rev_cons_last in Erc. subst cur. rewrite app_assoc in Er. apply app_inj_tail in Er. destruct Er as [Er1 Er2].
+          rewrite <- Er1. exists (rev rc ++ [{| fp_name := name; fp_off := fp_off prev; fp_len := fp_len prev + fp_len next |}]).
+          split; [rewrite app_assoc; reflexivity|]. split; [|destruct (rev rc); discriminate].
+          apply Forall_app in Hc. apply Forall_app. split; [apply Hc|constructor; [reflexivity|constructor]]. }
+    destruct Hshape as (cur1 & E1 & Hc1 & Hne1). rewrite E1.
+    destruct (IH blocks1 base cur1 (slen1 + bsz) Hb Hc1 HNl) as (cur' & E' & Hc' & Hne').
+    exists cur'. split; [exact E'|]. split; [exact Hc'|]. intros _. apply Hne'. right. exact Hne1.
+Qed.
+
+Lemma parts_bytes_other SS name ps : Forall (other name) ps -> parts_bytes SS name ps = [].
+Proof.
+  induction ps as [|p r IH]; intros H; cbn [parts_bytes]; [reflexivity|]. inversion H; subst.
+  destruct (String.eqb_spec (fp_name p) name); [contradiction|]. cbn. apply IH. assumption.
+Qed.
+Lemma parts_bytes_named SS name ps : Forall (named name) ps ->
+  parts_bytes SS name ps = List.concat (map (fun p => slice SS (fp_off p) (fp_len p)) ps).
+Proof.
+  induction ps as [|p r IH]; intros H; cbn [parts_bytes map List.concat]; [reflexivity|]. inversion H; subst.
+  unfold named in *. match goal with E : fp_name p = _ |- _ => rewrite E end. rewrite String.eqb_refl, IH by assumption. reflexivity.
+Qed.
+
+(* the chunk each part delivers *)
+Definition chunk (SS : list byte) (p : fpart) : string * list byte := (fp_name p, slice SS (fp_off p) (fp_len p)).
+
+(* parts emitted so far are, file by file and in order, non-empty runs whose chunks add up to the file *)
+Definition Grouped (SS : list byte) (files : list (string * list byte)) (ps : list fpart) : Prop :=
+  exists gs : list (list fpart), ps = List.concat gs /\
+    Forall2 (fun f g => g <> [] /\ Forall (named (fst f)) g /\
+                        List.concat (map (fun p => slice SS (fp_off p) (fp_len p)) g) = snd f) files gs.
+
+Lemma Forall2_snoc {A B} (R : A -> B -> Prop) l1 l2 a b : Forall2 R l1 l2 -> R a b -> Forall2 R (l1 ++ [a]) (l2 ++ [b]).
+Proof. intros H Hab. apply Forall2_app; [exact H|constructor; [exact Hab|constructor]]. Qed.
+
+Lemma map_slice_grow SS TT g : parts_in SS g ->
+  map (fun p => slice (SS ++ TT) (fp_off p) (fp_len p)) g = map (fun p => slice SS (fp_off p) (fp_len p)) g.
+Proof.
+  induction g as [|p r IH]; intros H; [reflexivity|]. inversion H; subst. cbn [map]. rewrite IH by assumption.
+  rewrite slice_app_l by assumption. reflexivity.
+Qed.
+
+Lemma Grouped_grow SS TT files ps : parts_in SS ps -> Grouped SS files ps -> Grouped (SS ++ TT) files ps.
+Proof.
+  intros Hin (gs & E & H2). exists gs. split; [exact E|]. subst ps.
+  revert Hin. induction H2 as [|f g fl gl (Hne & Hn & Hb) H2 IH]; intros Hin; [constructor|].
+  cbn [List.concat] in Hin. apply Forall_app in Hin. destruct Hin as [Hg Hr].
+  constructor; [|apply IH; exact Hr]. split; [exact Hne|]. split; [exact Hn|]. rewrite map_slice_grow by exact Hg. exact Hb.
+Qed.
+
+Lemma Grouped_names SS files ps p : Grouped SS files ps -> In p ps -> In (fp_name p) (map fst files).
+Proof.
+  intros (gs & E & H2) Hin. subst ps. induction H2 as [|f g fl gl (Hne & Hn & Hb) H2 IH]; [destruct Hin|].
+  cbn [List.concat] in Hin. apply in_app_or in Hin. destruct Hin as [Hin|Hin].
+  - left. rewrite Forall_forall in Hn. symmetry. apply Hn. exact Hin.
+  - right. apply IH. exact Hin.
+Qed.
+
+(* one more file *)
+Lemma stream_file_ok name l done bl ps sl BD :
+  StoLocal blks l -> (forall b t, ~ In (Mem b t) l) -> Forall (fun s => 0 < slen s) l ->
+  ~ In name (map fst done) ->
+  SInv bl ps sl BD -> Grouped (List.concat BD) done ps ->
+  let '(bl', ps', sl') := match l with
+                          | [] => (bl, ps ++ [{| fp_name := name; fp_off := 0; fp_len := 0 |}], sl)
+                          | _ => stream_segs tab blks name l bl ps sl
+                          end in
+  exists BD', SInv bl' ps' sl' BD' /\ Grouped (List.concat BD') (done ++ [(name, flat_map sbytes l)]) ps'.
+Proof.
+  intros HS HN HZ Hfresh HI HG.
+  assert (Hother : Forall (other name) ps).
+  { rewrite Forall_forall. intros p Hp E. apply Hfresh. rewrite <- E. eapply Grouped_names; eassumption. }
+  destruct l as [|s0 l0].
+  - exists BD. destruct HI as [I1 I2 I3 I4]. split.
+    + constructor; [exact I1|exact I2|exact I3|]. apply Forall_app. split; [exact I4|]. constructor; [|constructor].
+      unfold part_in. cbn. lia.
+    + destruct HG as (gs & E & H2). exists (gs ++ [[{| fp_name := name; fp_off := 0; fp_len := 0 |}]]).
+      split; [rewrite concat_snoc, E; reflexivity|]. apply Forall2_snoc; [exact H2|].
+      split; [discriminate|]. split; [constructor; [reflexivity|constructor]|reflexivity].
+  - set (l := s0 :: l0) in *.
+    pose proof (stream_segs_ok name l bl ps sl BD HS HN HZ HI) as Hok.
+    destruct (stream_segs_shape name l bl ps [] sl) as (cur' & Esh & Hc' & Hne'); [exact Hother|constructor|exact HN|].
+    rewrite app_nil_r in Esh.
+    destruct (stream_segs tab blks name l bl ps sl) as [[bl' ps'] sl'].
+    cbn [fst snd] in Esh. destruct Hok as (BD' & HI' & (TT & HT) & HB & _).
+    exists BD'. split; [exact HI'|].
+    destruct HI as [I1 I2 I3 I4].
+    pose proof (Grouped_grow _ TT _ _ I4 HG) as HG'. rewrite <- HT in HG'.
+    destruct HG' as (gs & E & H2). exists (gs ++ [cur']). split; [rewrite concat_snoc, <- E; exact Esh|].
+    apply Forall2_snoc; [exact H2|]. split; [apply Hne'; left; discriminate|]. split; [exact Hc'|]. cbn [snd].
+    rewrite <- (parts_bytes_named (List.concat BD') name cur' Hc').
+    rewrite Esh, parts_bytes_app in HB. rewrite (parts_bytes_other _ _ _ Hother) in HB. cbn [app] in HB.
+    rewrite HB. rewrite (parts_bytes_other _ _ _ Hother). reflexivity.
+Qed.
+
+
+(* all files of a directory *)
+Definition file_step (segs_of : nat -> list seg) (acc : list string * list fpart * nat) (e : string * nat) :=
+  let '(bl, ps, sl) := acc in
+  match segs_of (snd e) with
+  | [] => (bl, ps ++ [{| fp_name := fst e; fp_off := 0; fp_len := 0 |}], sl)
+  | l => stream_segs tab blks (fst e) l bl ps sl
+  end.
+
+Definition segs_stored (l : list seg) : Prop :=
+  StoLocal blks l /\ (forall b t, ~ In (Mem b t) l) /\ Forall (fun s => 0 < slen s) l.
+
+Lemma stream_fold_ok (segs_of : nat -> list seg) : forall files done bl ps sl BD,
+  (forall e, In e files -> segs_stored (segs_of (snd e))) ->
+  NoDup (map fst done ++ map fst files) ->
+  SInv bl ps sl BD -> Grouped (List.concat BD) done ps ->
+  let '(bl', ps', sl') := fold_left (file_step segs_of) files (bl, ps, sl) in
+  exists BD', SInv bl' ps' sl' BD' /\
+    Grouped (List.concat BD') (done ++ map (fun e => (fst e, flat_map sbytes (segs_of (snd e)))) files) ps'.
+Proof.
+  induction files as [|e files IH]; intros done bl ps sl BD Hst Hnd HI HG; cbn [fold_left map].
+  - exists BD. rewrite app_nil_r. split; assumption.
+  - assert (Hfresh : ~ In (fst e) (map fst done)).
+    { cbn [map] in Hnd. apply NoDup_remove_2 in Hnd. intros Hin. apply Hnd. apply in_or_app. left. exact Hin. }
+    destruct (Hst e (or_introl eq_refl)) as (HS & HN & HZ).
+    pose proof (stream_file_ok (fst e) (segs_of (snd e)) done bl ps sl BD HS HN HZ Hfresh HI HG) as H1.
+    unfold file_step at 2. 
+    destruct (segs_of (snd e)) as [|s0 l0] eqn:El.
+    + destruct H1 as (BD1 & HI1 & HG1).
+      specialize (IH (done ++ [(fst e, [])]) bl (ps ++ [{| fp_name := fst e; fp_off := 0; fp_len := 0 |}]) sl BD1).
+      match type of IH with ?A -> ?B -> ?C -> ?D -> _ => assert (HA : A); [|assert (HB : B); [|specialize (IH HA HB HI1 HG1)]] end.
+      * intros e' He'. apply Hst. right. exact He'.
+      * rewrite map_app. cbn [map fst]. rewrite <- app_assoc. cbn [app]. cbn [map] in Hnd.
+        apply NoDup_remove_1 in Hnd as Hnd1. 
+        replace (map fst done ++ fst e :: map fst files) with (map fst done ++ [fst e] ++ map fst files) by reflexivity.
+        exact Hnd.
+      * destruct (fold_left (file_step segs_of) files (bl, ps ++ [{| fp_name := fst e; fp_off := 0; fp_len := 0 |}], sl)) as [[bl' ps'] sl'].
+        destruct IH as (BD' & HI' & HG'). exists BD'. split; [exact HI'|]. rewrite <- app_assoc in HG'. exact HG'.
+    + destruct (stream_segs tab blks (fst e) (s0 :: l0) bl ps sl) as [[bl1 ps1] sl1].
+      destruct H1 as (BD1 & HI1 & HG1).
+      specialize (IH (done ++ [(fst e, flat_map sbytes (s0 :: l0))]) bl1 ps1 sl1 BD1).
+      match type of IH with ?A -> ?B -> ?C -> ?D -> _ => assert (HA : A); [|assert (HB : B); [|specialize (IH HA HB HI1 HG1)]] end.
+      * intros e' He'. apply Hst. right. exact He'.
+      * rewrite map_app. cbn [map fst]. rewrite <- app_assoc. cbn [app]. exact Hnd.
+      * destruct (fold_left (file_step segs_of) files (bl1, ps1, sl1)) as [[bl' ps'] sl'].
+        destruct IH as (BD' & HI' & HG'). exists BD'. split; [exact HI'|]. rewrite <- app_assoc in HG'. exact HG'.
+Qed.
+
+Lemma SInv_init : SInv [] [] 0 [].
+Proof. constructor; [reflexivity|constructor|reflexivity|constructor]. Qed.
+Lemma Grouped_init : Grouped [] [] [].
+Proof. exists []. split; [reflexivity|constructor]. Qed.
+
 End Stream.
